@@ -4,7 +4,6 @@ import os
 import random
 
 META = {
-    "disabled": True,
     "level": "model_checking",
     "text": "TLA+ specification of signingRetryLoop.start and dkgRetryLoop.start as sequential processes against a nondeterministic "
             "environment (chain, announcer, attempt function, done check, context), one action per call/decision of the code; the "
